@@ -245,6 +245,21 @@ def cases(tier, r):
     yield 'dataclasses', {'seed': n, 'transform': 'dataclasses'}
 
 
+class SharedLeaf:
+  """A plain mutable object (a vocabulary, a tokenizer): copied as a whole, never traversed."""
+
+  def __init__(self):
+    self.words = ['a', 'b']
+
+  def __eq__(self, other):
+    return isinstance(other, SharedLeaf) and self.words == other.words
+
+  __hash__ = object.__hash__
+
+  def __repr__(self):
+    return 'SharedLeaf()'
+
+
 class ArrayLike:
   class _NoTruth:
     def __bool__(self):
@@ -298,6 +313,8 @@ def make_root(case):
     root = fdl.Config(graphs.node_fn(1, 0), p=root)
   if fl == 'special':
     shared = [0]
+    shared_cfg = fdl.Config(graphs.node_fn(1, 0), p=Tok(3))
+    shared_leaf = SharedLeaf()
     extra = [
         fdl.Config(mutable_defaults, hooks=shared),
         fdl.Config(mutable_defaults, hooks=shared, names=[0]),
@@ -311,10 +328,16 @@ def make_root(case):
         fdl.Partial(graphs.node_fn(1, 0)),
         [fdl.Partial(mutable_defaults), (fdl.Partial(collect),)],
         {'tv': fdl.TaggedValue(tags=[targets.T1], default=Tok(5)), 'lit': ((1, 2), 's')},
+        # a stand-alone TaggedValue whose value is a sub-configuration / container that is ALSO
+        # referenced elsewhere
+        [fdl.TaggedValue(tags=[targets.T0], default=shared_cfg), shared_cfg, {'again': shared_cfg}],
+        (fdl.TaggedValue(tags=[targets.T1], default=shared), shared),
+        # one plain mutable object (nothing traverses into it) passed directly to two Buildables
+        [fdl.Config(graphs.node_fn(1, 1), p=shared_leaf), fdl.Config(graphs.node_fn(1, 2), q=shared_leaf)],
         fdl.Config(DC, a=2),
     ]
     r.shuffle(extra)
-    root = fdl.Config(graphs.node_fn(1, 0), p=root, q=extra[:4], r={'s': shared, 'e': extra[4:7]})
+    root = fdl.Config(graphs.node_fn(1, 0), p=root, q=extra[:5], r={'s': shared, 'e': extra[5:9]})
   return root
 
 
